@@ -184,6 +184,8 @@ class EvalMixin:
                     return self.read_field(st, v.e, name, ft)
                 if name == "get" and (self.classes.get(cls) or {}).get("dictlike"):
                     return Builtin("refdict.get", self_val=(v, loc))
+                if name == "items" and (self.classes.get(cls) or {}).get("dictlike"):
+                    return Builtin("refdict.items", self_val=(v, loc))
                 return MethodRef(v, name)
             return Builtin(f"{k}.{name}", self_val=(v, loc))
         if isinstance(v, Arr):
@@ -393,6 +395,19 @@ class EvalMixin:
     def comp_nested(self, st, n, kind):
         raise OutsideSubset("nested comprehension")
 
+    def seq_map_func(self, st, f, it: Z):
+        """map(f, s) over a symbolic sequence (same canonical term as the comprehension [f(x) for x in s])"""
+        et = it.t.args[0]
+        xb = z3.Const(f"cx!{et.kind}", et.z3sort() if et.kind != "char" else Int)
+        st.spec += 1
+        st.bound.append(xb)
+        try:
+            ev = self.call(st, f, [Z(et, xb)], {})
+        finally:
+            st.bound.pop()
+            st.spec -= 1
+        return self.seq_map_core(st, it, xb, ev, [])
+
     def seq_map(self, st, n, g, it: Z, fr):
         """[elt for x in s (if c)] over a symbolic sequence: a canonical map term with pointwise axioms."""
         et = it.t.args[0]
@@ -408,10 +423,13 @@ class EvalMixin:
             st.bound.pop()
             st.spec -= 1
             st.frames.pop()
+        return self.seq_map_core(st, it, xb, ev, conds)
+
+    def seq_map_core(self, st, it: Z, xb, ev, conds):
         if isinstance(ev, PyTuple) and all(isinstance(x, Z) and x.t.is_smt() for x in ev.items):
             tt = T("tuple", tuple(x.t for x in ev.items))
             ev = self.to_z(st, ev, tt)
-        if isinstance(ev, Union) or ev is NONE:
+        if isinstance(ev, Union) or ev is NONE or (isinstance(ev, HeapRef) and st.obj(ev).kind in ("dict", "list")):
             ev = Z(T("dyn"), self.to_dyn(st, ev))
         if isinstance(ev, PyTuple):
             raise OutsideSubset("tuple-valued comprehension over symbolic data")
